@@ -198,12 +198,16 @@ Proof.
   intros [Hf Hb]. destruct sp as [fg bg bold intense underline dimmed italic reset strike].
   cbn [tcs_fg_color tcs_bg_color] in Hf, Hb.
   unfold g_tcr_ansi_set_color, tcr_params.
+  (* write_color only through its lemma: as an abstract function, so that a `rewrite` that does not
+     apply (another slot flag, another argument order) fails at once instead of unfolding it *)
+  pose proof g_tcr_write_color_eq as HWC.
+  set (WC := g_tcr_ansi_write_color) in *. clearbody WC.
   cbn [tcs_fg_color tcs_bg_color tcs_bold tcs_intense tcs_underline tcs_dimmed tcs_italic tcs_reset tcs_strikethrough].
   destruct reset, bold, dimmed, italic, underline, strike;
     cbv beta iota zeta; rewrite ?g_tcr_reset_eq, ?g_tcr_write_str_eq; cbv beta iota zeta;
     rewrite ?g_tcr_write_str_eq; cbv beta iota zeta;
-    (destruct fg as [cf|]; [cbn [tcr_ocolor_ok] in Hf; rewrite (g_tcr_write_color_eq _ true cf intense Hf); cbv beta iota zeta|]);
-    (destruct bg as [cb|]; [cbn [tcr_ocolor_ok] in Hb; rewrite (g_tcr_write_color_eq _ false cb intense Hb); cbv beta iota zeta|]);
+    (destruct fg as [cf|]; [cbn [tcr_ocolor_ok] in Hf; rewrite (HWC _ true cf intense Hf); cbv beta iota zeta|]);
+    (destruct bg as [cb|]; [cbn [tcr_ocolor_ok] in Hb; rewrite (HWC _ false cb intense Hb); cbv beta iota zeta|]);
     cbn [tcr_flag tcr_ocolor_params tcr_seqs map concat app tcr_slot_digit];
     rewrite <- ?app_assoc, ?app_nil_r; reflexivity.
 Qed.
